@@ -1,8 +1,8 @@
 (** C03 — relative evaluation e@k is exact and position-neutral.
     Statements only; proofs in proofs/RevalProofs.v and proofs/Balanced.v.
-    PARTIAL: the composition law (e@j)@k = e@(j+k) needs the framing theorem (the value of e
-    does not depend on saved positions below it on the stack), which is not proved; it is
-    decided by the differential check. *)
+    PARTIAL: the composition law (e@j)@k = e@(j+k) is proved (end of this file) for expressions of the
+    read-only fragment on one trace; for expressions outside it (scans, scoped references, virtual
+    signals, user functions) and for several traces it is decided by the differential check. *)
 From WalModel Require Import Eval.
 From WalModel.proofs Require Import VcdProofs Balanced NavProofs RevalProofs.
 Local Open Scope Z_scope.
@@ -89,3 +89,22 @@ Theorem shifted_state_is : forall tid st0 t0 i j, RevalRo.shifted_state tid st0 
   upd_cont st0 (mkCont [(tid, set_index t0 j)] (c_ntraces (st_cont st0)) ([(tid, i)] :: c_stack (st_cont st0))).
 Proof. reflexivity. Qed.
 Print Assumptions shifted_state_is.
+
+(** the composition law (e@j)@k = e@(j+k) for a read-only e on one trace, when both positions lie inside the trace:
+    both evaluate e once, at index i+k+j, and both leave the interpreter exactly as it was.  It rests on T-ro (the
+    state is untouched) and on [ro_stack_independent] (proofs/StackIndep.v: the read-only fragment does not look at
+    the stack of saved positions — one lemma per operator, induction on fuel). *)
+From WalModel.proofs Require StackIndep.
+Theorem nested_offsets_compose : forall lf f tid st0 t0 e j k i v s,
+  tr_tid t0 = tid -> tr_virt t0 = [] -> ReadOnly.is_ro e = true ->
+  0 <= i + k <= tr_max t0 -> 0 <= i + k + j <= tr_max t0 ->
+  eval lf (S f) e (RevalRo.shifted_state tid st0 t0 i (i + k + j)) = Ok v s ->
+  op_reval (eval lf (S (S f))) [WL [VOp OReval; e; VInt j]; VInt k] (ScanProofs.at_idx tid st0 t0 i) = Ok v (ScanProofs.at_idx tid st0 t0 i) /\
+  op_reval (eval lf (S f)) [e; VInt (j + k)] (ScanProofs.at_idx tid st0 t0 i) = Ok v (ScanProofs.at_idx tid st0 t0 i).
+Proof. exact RevalRo.reval_compose. Qed.
+Print Assumptions nested_offsets_compose.
+
+Theorem read_only_fragment_ignores_saved_positions : forall x lf f e, ReadOnly.is_ro e = true ->
+  forall st, ReadOnly.novirt st -> eval lf f e (StackIndep.push x st) = StackIndep.lift x (eval lf f e st).
+Proof. exact StackIndep.ro_stack_independent. Qed.
+Print Assumptions read_only_fragment_ignores_saved_positions.
